@@ -52,7 +52,7 @@ func cmdVerify(args []string) int {
 	fs.StringVar(&o.funcs, "func", "", "only functions whose short name contains this (comma separated)")
 	fs.StringVar(&o.dump, "dump", "", "directory to keep SMT scripts")
 	fs.IntVar(&o.timeout, "timeout", 0, "per-obligation solver timeout in seconds (default 10 quick / 120 thorough)")
-	fs.IntVar(&o.par, "par", runtime.NumCPU(), "parallel solver jobs")
+	fs.IntVar(&o.par, "par", runtime.NumCPU()*3/4, "parallel solver jobs")
 	fs.StringVar(&o.evidence, "evidence", "", "evidence file to write")
 	fs.BoolVar(&o.verbose, "v", false, "verbose")
 	fs.StringVar(&o.known, "known", "/verif/known_findings.jsonl", "known findings file")
@@ -61,7 +61,7 @@ func cmdVerify(args []string) int {
 	fs.Int64Var(&o.seed, "seed", 0, "seed (recorded in the evidence; the proof search itself is deterministic)")
 	fs.Parse(args)
 	if o.timeout == 0 {
-		o.timeout = 20
+		o.timeout = 30
 		if o.tier == "thorough" {
 			o.timeout = 120
 		}
